@@ -186,11 +186,13 @@ def check_cases(sdk, cases, tag='cases', shard=None, viewf=None):
     Returns list of (id, step) for failing cases; raises BuildError when coqc itself fails."""
     d = os.path.join(BUILD, 'cases')
     os.makedirs(d, exist_ok=True)
-    shard = shard or max(4, (len(cases) + 13) // 14)
+    shard = min(shard or max(4, (len(cases) + 13) // 14), 150)     # bounded, so that one coqc process stays small
     shards = [cases[i:i + shard] for i in range(0, len(cases), shard)]
-    files = []
-    for n, sh_cases in enumerate(shards):
-        name = '%s_%s_%d_%d' % (re.sub(r'\W', '_', tag), sdk, os.getpid(), n)
+    import itertools
+    counter = itertools.count()
+
+    def one(sh_cases):
+        name = '%s_%s_%d_%d' % (re.sub(r'\W', '_', tag), sdk, os.getpid(), next(counter))
         path = os.path.join(d, name + '.v')
         with open(path, 'w') as f:
             f.write(HEADER)
@@ -198,10 +200,6 @@ def check_cases(sdk, cases, tag='cases', shard=None, viewf=None):
             f.write(';\n'.join(coqterm.ccase(ops, obs, sdk, viewf) for _, ops, obs in sh_cases))
             f.write('\n ].\n')
             f.write('Definition M := Eval vm_compute in mismatches %s cases.\nPrint M.\n' % sdk.upper())
-        files.append((path, sh_cases))
-
-    def one(pc):
-        path, sh_cases = pc
         rc, log = coqc_file(path)
         for ext in ('.v', '.vo', '.vok', '.vos', '.glob'):
             try:
@@ -212,6 +210,10 @@ def check_cases(sdk, cases, tag='cases', shard=None, viewf=None):
             os.remove(os.path.join(os.path.dirname(path), '.' + os.path.basename(path)[:-2] + '.aux'))
         except OSError:
             pass
+        if rc and resource_failure(rc, log) and len(sh_cases) > 1:
+            # the evaluator ran out of memory / stack / time on this shard: not a verdict; evaluate it in two halves
+            h = len(sh_cases) // 2
+            return one(sh_cases[:h]) + one(sh_cases[h:])
         if rc:
             raise BuildError('coqc-cases', log[-3000:])
         m = re.search(r'M\s*=\s*(.*?)\s*:\s*list', log, re.S)
@@ -226,8 +228,13 @@ def check_cases(sdk, cases, tag='cases', shard=None, viewf=None):
         return bad
 
     with ThreadPoolExecutor(max_workers=14) as ex:
-        res = list(ex.map(one, files))
+        res = list(ex.map(one, shards))
     return [x for r in res for x in r]
+
+
+def resource_failure(rc, log):
+    """coqc did not answer for lack of resources (memory, stack, time, killed): says nothing about the cases"""
+    return rc < 0 or rc in (137, 124) or any(m in log for m in ('Out of memory', 'Stack overflow', 'Timeout!', 'Killed', 'Cannot allocate memory'))
 
 
 UHEADER = """From Coq Require Import List Strings.Byte Strings.String.
@@ -241,21 +248,19 @@ def check_units(units, tag='units', shard=None):
     """units: list of (id, op, ob). Returns the ids whose model result differs from the implementation's."""
     d = os.path.join(BUILD, 'cases')
     os.makedirs(d, exist_ok=True)
-    shard = shard or max(20, (len(units) + 13) // 14)
+    shard = min(shard or max(20, (len(units) + 13) // 14), 600)     # bounded, so that one coqc process stays small
     shards = [units[i:i + shard] for i in range(0, len(units), shard)]
-    files = []
-    for n, su in enumerate(shards):
-        name = '%s_%d_%d' % (re.sub(r'\W', '_', tag), os.getpid(), n)
+    import itertools
+    counter = itertools.count()
+
+    def one(su):
+        name = '%s_%d_%d' % (re.sub(r'\W', '_', tag), os.getpid(), next(counter))
         path = os.path.join(d, name + '.v')
         with open(path, 'w') as f:
             f.write(UHEADER)
             f.write('Definition cases : list ucase :=\n [\n')
             f.write(';\n'.join(coqterm.cucase(op, ob) for _, op, ob in su))
             f.write('\n ].\nDefinition M := Eval vm_compute in umismatches cases.\nPrint M.\n')
-        files.append((path, su))
-
-    def one(pc):
-        path, su = pc
         rc, log = coqc_file(path)
         for ext in ('.v', '.vo', '.vok', '.vos', '.glob'):
             try:
@@ -266,6 +271,9 @@ def check_units(units, tag='units', shard=None):
             os.remove(os.path.join(os.path.dirname(path), '.' + os.path.basename(path)[:-2] + '.aux'))
         except OSError:
             pass
+        if rc and resource_failure(rc, log) and len(su) > 1:
+            h = len(su) // 2
+            return one(su[:h]) + one(su[h:])
         if rc:
             raise BuildError('coqc-units', log[-3000:])
         m = re.search(r'M\s*=\s*(.*?)\s*:\s*list', log, re.S)
@@ -274,7 +282,7 @@ def check_units(units, tag='units', shard=None):
         return [su[int(i)][0] for i in re.findall(r'\d+', m.group(1))]
 
     with ThreadPoolExecutor(max_workers=14) as ex:
-        res = list(ex.map(one, files))
+        res = list(ex.map(one, shards))
     return [x for r in res for x in r]
 
 
